@@ -99,6 +99,7 @@ type Task struct {
 
 	// controller-side state
 	done     bool
+	held     []uintptr
 	wantLock uintptr
 	prio     int
 	started  bool
@@ -124,6 +125,25 @@ type Config struct {
 	PCTDepth int
 	Fine     bool // yield at field-access points too
 	MaxSteps int
+	// Direct, when set, steers the run towards a potential deadlock found in an
+	// earlier pass: task TaskA is held back when it holds the lock named First
+	// and asks for the lock named Second, until task TaskB holds Second.
+	Direct *Directive
+}
+
+// Directive is a potential deadlock: two tasks took the same two locks in
+// opposite orders without a common guarding lock.
+type Directive struct {
+	TaskA  int
+	First  string
+	Second string
+	TaskB  int
+}
+
+type lockEdge struct {
+	from, to uintptr
+	task     int
+	guards   []uintptr
 }
 
 // DrawConfig draws a swarm configuration from the tape.
@@ -179,6 +199,10 @@ type Sched struct {
 	MapChoices int
 	// Contended counts lock attempts that found the lock held by another task.
 	Contended int
+	edges     []lockEdge
+	dirActive bool
+	// HeldBack counts scheduling decisions in which the directive kept TaskA waiting.
+	HeldBack int
 	// vector clocks (controller only)
 	vc      [][]int
 	lockVC  map[uintptr][]int
@@ -322,8 +346,19 @@ func (s *Sched) log(t *Task, kind, obj, site string) uint64 {
 }
 
 //go:norace
+func (s *Sched) holdsNamed(t *Task, name string) bool {
+	for _, h := range t.held {
+		if s.lockName[h] == name {
+			return true
+		}
+	}
+	return false
+}
+
+//go:norace
 func (s *Sched) runnable() []*Task {
 	var out []*Task
+	var heldBack *Task
 	for _, t := range s.tasks {
 		if t.done {
 			continue
@@ -332,8 +367,24 @@ func (s *Sched) runnable() []*Task {
 			if o := s.owner[t.wantLock]; o != nil {
 				continue
 			}
+			if d := s.Cfg.Direct; d != nil && s.dirActive && t.ID == d.TaskA && s.lockName[t.wantLock] == d.Second && s.holdsNamed(t, d.First) {
+				b := s.tasks[d.TaskB]
+				if !b.done && !s.holdsNamed(b, d.Second) {
+					heldBack = t
+					continue
+				}
+			}
 		}
 		out = append(out, t)
+	}
+	if heldBack != nil {
+		if len(out) == 0 {
+			// nobody else can move: the steering does not apply to this run
+			s.dirActive = false
+			out = append(out, heldBack)
+		} else {
+			s.HeldBack++
+		}
 	}
 	return out
 }
@@ -422,6 +473,7 @@ func (s *Sched) Run() {
 	s.lockVC = map[uintptr][]int{}
 	s.cells = map[uintptr]*vcCell{}
 	s.active = true
+	s.dirActive = s.Cfg.Direct != nil
 	for _, t := range s.tasks {
 		go t.body()
 	}
@@ -450,6 +502,13 @@ func (s *Sched) Run() {
 		if t.wantLock != 0 {
 			// lock is free (runnable() checked): the task acquires it now
 			s.owner[t.wantLock] = t
+			for i, h := range t.held {
+				g := make([]uintptr, 0, len(t.held))
+				g = append(g, t.held[:i]...)
+				g = append(g, t.held[i+1:]...)
+				s.edges = append(s.edges, lockEdge{from: h, to: t.wantLock, task: t.ID, guards: g})
+			}
+			t.held = append(t.held, t.wantLock)
 			s.log(t, "acquire", s.lockName[t.wantLock], "")
 			if lc := s.lockVC[t.wantLock]; lc != nil {
 				for i, v := range lc {
@@ -510,6 +569,12 @@ func (s *Sched) Run() {
 				s.log(m.task, KUnlock, m.obj, m.site)
 				if s.owner[m.key] == m.task {
 					delete(s.owner, m.key)
+				}
+				for i := len(m.task.held) - 1; i >= 0; i-- {
+					if m.task.held[i] == m.key {
+						m.task.held = append(m.task.held[:i], m.task.held[i+1:]...)
+						break
+					}
 				}
 				lc := make([]int, n)
 				copy(lc, s.vc[m.task.ID])
@@ -631,6 +696,39 @@ func hashStr(x string) uint64 {
 		h *= 1099511628211
 	}
 	return h
+}
+
+// LockCycles returns the potential deadlocks of the run: pairs of lock-order
+// edges a->b (task X) and b->a (task Y != X) that were not both taken under a
+// common guarding lock. Locks are reported by name.
+func (s *Sched) LockCycles() []Directive {
+	var out []Directive
+	seen := map[string]bool{}
+	for _, e := range s.edges {
+		for _, f := range s.edges {
+			if e.task == f.task || e.from != f.to || e.to != f.from {
+				continue
+			}
+			common := false
+			for _, g := range e.guards {
+				for _, h := range f.guards {
+					if g == h {
+						common = true
+					}
+				}
+			}
+			if common {
+				continue
+			}
+			d := Directive{TaskA: e.task, First: s.lockName[e.from], Second: s.lockName[e.to], TaskB: f.task}
+			k := fmt.Sprintf("%d/%s/%s/%d", d.TaskA, d.First, d.Second, d.TaskB)
+			if !seen[k] {
+				seen[k] = true
+				out = append(out, d)
+			}
+		}
+	}
+	return out
 }
 
 // InterleavingHash identifies the interleaving by the (task, site) sequence at
